@@ -159,6 +159,11 @@ class HashTable:
         return int(2 * keys.size - 1)  # TODO: make prime
 
     def _get_hash(self, keys):
+        if isinstance(keys, Number):
+            return int(keys) % self._mod
+        keys = np.asanyarray(keys)
+        if keys.dtype.kind in "iu" and keys.dtype.itemsize < 8:
+            keys = keys.astype(np.int64)  # the modulus need not fit the key dtype (e.g. 100 int8 keys: 199)
         return keys % self._mod
 
     def _build_ragged_array(self, keys, hashes):
